@@ -5,6 +5,7 @@ production).
 
 Writer side (model of the code): `quotedString` is defined over the escape table that
 `tools/extractors/c03.py` regenerates from the `match cutchar` arms of `quoted_string`
+(the loop-shaped body of /repo commit 61cb60c)
 (`Gen/NtEscapes.lean`), `writeTerm/writeTriple/writeQuad/writeDoc` follow `write_term`,
 `write_triple` and the closures of `NtSerializer::serialize_triples` /
 `NqSerializer::serialize_quads` call by call.
@@ -65,21 +66,32 @@ def quotedString (s : Str) : Str := s.flatMap escChar
 /-- `quoted_string` reaches `unreachable!()` on this text -/
 def quotedPanics (s : Str) : Bool := s.any (fun c => isCut c && (escArm c).isNone)
 
-/-- `quoted_string` with the control flow of the source: search the first cut byte, write the
-prefix, write the arm, recurse on what follows the cut byte (fuel = remaining length + 1).
-`none` = `unreachable!()`. -/
-def quotedStringRs : Nat → Str → Option Str
-  | 0, _ => some []
-  | fuel + 1, txt =>
-    let pre := txt.takeWhile (fun c => !isCut c)
-    match txt.dropWhile (fun c => !isCut c) with
-    | [] => some pre                                    -- cut = txt.len(): nothing to escape
-    | cutchar :: tl =>
-      match escArm cutchar with
-      | none => none                                    -- `_ => unreachable!()`
-      | some e =>
-        if tl.isEmpty then some (pre ++ e)              -- `cut + 1 >= txt.len()`
-        else (quotedStringRs fuel tl).map (fun r => pre ++ e ++ r)
+/-- the `loop` of `quoted_string`, effect by effect and in the source's order.  `w` is what has
+been written so far, `txt` the mutable slice; one iteration =
+  1. search the first cut byte (`cut`, `cutchar`);
+  2. `w.write_all(&txt[..cut])`                       — the prefix;
+  3. `if cut < txt.len() { match cutchar { arms } }`  — the escape (`none` = `unreachable!()`);
+  4. `if cut + 1 >= txt.len() { return Ok(()) }`      — the end test, AFTER the escape was written;
+  5. `txt = &txt[cut + 1..]`.
+Fuel = remaining length + 1 (every iteration but the last consumes at least the cut byte). -/
+def quotedLoop : Nat → Str → Str → Option Str
+  | 0, _, _ => none
+  | fuel + 1, w, txt =>
+    let pre := txt.takeWhile (fun c => !isCut c)            -- txt[..cut]
+    let rest := txt.dropWhile (fun c => !isCut c)           -- txt[cut..]
+    let w1 := w ++ pre                                      -- (2)
+    let w2? : Option Str :=                                 -- (3)
+      match rest with
+      | [] => some w1                                       --   cut = txt.len(): no escape
+      | cutchar :: _ => (escArm cutchar).map (fun e => w1 ++ e)
+    match w2? with
+    | none => none                                          --   `_ => unreachable!()`
+    | some w2 =>
+      if rest.length ≤ 1 then some w2                       -- (4) cut + 1 >= txt.len()
+      else quotedLoop fuel w2 (rest.drop 1)                 -- (5)
+
+/-- `quoted_string(w, txt)` on an empty sink -/
+def quotedStringRs (txt : Str) : Option Str := quotedLoop (txt.length + 1) [] txt
 
 /-- `write_term` -/
 def writeTerm : Term → Str
